@@ -15,6 +15,7 @@ from typing import (
 )
 
 import typing_extensions as te
+from pydantic.fields import FieldInfo
 
 # import typing_utils  # for issubtype
 from runtype import validation as rv  # for is_subtype
@@ -218,9 +219,15 @@ def is_subtype(sub, base):
         # return typing_utils.issubtype(sub, base)
     else:
         sub_args, base_args = get_args(sub), get_args(base)
-        # NOTE: FieldInfo of pydantic is not comparable :( so we ignore it
-        # same_ann = list(sub_args)[1:] == list(base_args)[1:]
-        return is_subtype(sub_args[0], base_args[0])  # and same_ann
+        # NOTE: FieldInfo of pydantic is not comparable :( so we compare its description
+        # (conservative: constraints and aliases must be the same, not just compatible)
+        # other kinds of annotations are ignored
+
+        def field_infos(args):
+            return [repr(a) for a in args[1:] if isinstance(a, FieldInfo)]
+
+        same_fields = field_infos(sub_args) == field_infos(base_args)
+        return same_fields and is_subtype(sub_args[0], base_args[0])
 
 
 def is_subtype_of(t: Any) -> Callable[[Any], bool]:
